@@ -28,8 +28,8 @@ def one(d, wts):
     meta = json.load(open(os.path.join(d, "meta.json")))
     pid = meta.get("judged_by") or sid.split("-")[0]  # (a change reclassified to another property is judged by that property's check)
     summary = " ".join(str(meta.get("summary", "")).split())[:110].replace("|", "/")
-    if meta.get("status") == "obsolete":
-        return (sid, pid, "obsolete", "-", summary)
+    if meta.get("status") in ("obsolete", "outside-alphabet"):
+        return (sid, pid, meta["status"], "-", summary)
     if not meta.get("ok"):
         return (sid, pid, "unconfirmed", "-", summary)
     wt = wts.get()
